@@ -500,6 +500,8 @@ def compare(op, real, model):
     """True if the model's answer agrees with the real one (after the
     op-specific canonicalisation); 'skip' if the model declares the input
     outside its domain."""
+    if isinstance(real, dict) and 'uncanonicalisable_result' in real:
+        return False
     if _has_unmodelled(model):
         return 'skip'
     real, model = _drop_kinds(real), _drop_kinds(model)
